@@ -160,6 +160,7 @@ func (vc *FnVC) call(c ssa.CallInstruction, val *ssa.Call) {
 	}
 
 	pre := vc.cur
+	calleeGhosts := map[string]TV{}
 	// results
 	results := make([]TV, nres)
 	freshResults := func() {
@@ -212,6 +213,7 @@ func (vc *FnVC) call(c ssa.CallInstruction, val *ssa.Call) {
 			}
 			t := vc.declare(vc.e.fresh("ghost_"+g.Name), vc.pureSort(ty))
 			qenv.names[g.Name] = TV{t: t, ty: ty, pure: true}
+			calleeGhosts["callee_"+g.Name] = qenv.names[g.Name]
 		}
 		for i, r := range ct.Ensures {
 			tv, err := qenv.tr(r.E)
@@ -223,6 +225,9 @@ func (vc *FnVC) call(c ssa.CallInstruction, val *ssa.Call) {
 		// frame: objects that existed before the call and whose type is assignable keep their value unless listed;
 		// components outside the assigns set are untouched by construction of `post`.
 		vc.cur = post
+		for i := range results {
+			vc.assumeLoaded(results[i].t, results[i].ty)
+		}
 		if ct.Trusted {
 			vc.trustedUsed[ct.Pkg+"."+ct.Name] = true
 		}
@@ -257,7 +262,7 @@ func (vc *FnVC) call(c ssa.CallInstruction, val *ssa.Call) {
 			vc.assumeWF(results[i].t, results[i].ty, vc.cur)
 		}
 	}
-	vc.cur = vc.applyCallGhosts(name, args, results, vc.cur)
+	vc.cur = vc.applyCallGhostsX(name, args, results, vc.cur, calleeGhosts)
 	if val != nil {
 		switch nres {
 		case 0:
@@ -371,6 +376,10 @@ func (vc *FnVC) bindResults(env *Env, sig *types.Signature, results []TV) {
 }
 
 func (vc *FnVC) applyCallGhosts(name string, args, results []TV, m *Mem) *Mem {
+	return vc.applyCallGhostsX(name, args, results, m, nil)
+}
+
+func (vc *FnVC) applyCallGhostsX(name string, args, results []TV, m *Mem, extra map[string]TV) *Mem {
 	if vc.ct == nil {
 		return m
 	}
@@ -386,6 +395,9 @@ func (vc *FnVC) applyCallGhosts(name string, args, results []TV, m *Mem) *Mem {
 		}
 		for i, r := range results {
 			env.names[fmt.Sprintf("ret%d", i)] = r
+		}
+		for k, v := range extra {
+			env.names[k] = v
 		}
 		m = vc.applyGhost(env, g.Upd, m)
 	}
